@@ -1109,6 +1109,33 @@ def analyse(repo=None):
         if len(methods) != sum(1 for n in cls.body if isinstance(n, ast.FunctionDef)):
             fail(fn, "a method is defined twice")
         classes[cls.name] = (fn, methods)
+    # state outside the database: an instance attribute (other than the connection) that some method reads
+    for cname, (fn, methods) in classes.items():
+        connp = None
+        init = methods.get("__init__")
+        if init is not None and len(init.args.args) == 2:
+            connp = init.args.args[1].arg
+        stored, loaded = {}, {}
+        for mname, fdef in methods.items():
+            for n in ast.walk(fdef):
+                if isinstance(n, ast.Attribute) and isinstance(n.value, ast.Name) and n.value.id == "self":
+                    if isinstance(n.ctx, (ast.Store, ast.Del)):
+                        stored.setdefault(n.attr, []).append((mname, n.lineno))
+                    elif n.attr not in methods and mname != "__init__":
+                        loaded.setdefault(n.attr, set()).add(mname)
+            if mname == "__init__":
+                for st in fdef.body:      # the attribute(s) the connection parameter is kept in are not state
+                    if isinstance(st, ast.Assign) and isinstance(st.value, ast.Name) and st.value.id == connp:
+                        for t in st.targets:
+                            if isinstance(t, ast.Attribute):
+                                stored.pop(t.attr, None)
+                                loaded.pop(t.attr, None)
+                                stored["\0conn:" + t.attr] = []
+        conns = set(k[6:] for k in stored if k.startswith("\0conn:"))
+        for attr in sorted(a for a in stored if not a.startswith("\0conn:") and a not in conns and a in loaded):
+            m0, l0 = stored[attr][0]
+            fail("%s:%s" % (fn, cname), "state outside the database: instance attribute self.%s (assigned in %s line %d) "
+                 "is read by %s" % (attr, m0, l0, ", ".join(sorted(loaded[attr]))))
     # the facade: which methods are the store's API
     facade = translate_facade(repo, classes)
     api = set((v["class"], v["method"]) for v in facade["methods"].values())
@@ -1506,6 +1533,10 @@ def measured_method(pb, cname, mname, m):
             elif it != full:
                 if ending.startswith("other:") and it == full[:len(it)]:
                     raise Inconclusive("%s: raised %s in variant %s" % (where, ending[6:], label(r)))
+                if r["variant"] == "R":
+                    fail(where, "state outside the database: the same call repeated on the same object gives %s, the "
+                                "first call %s; instance attribute(s) changed by the first call: %s"
+                         % (_show(it), _show(full), ", ".join("self." + a for a in (r.get("state_changed") or [])) or "none seen"))
                 fail(where, "behaviour depends on the stored state beyond what the model language expresses: "
                             "variant A %s, variant %s %s" % (_show(full), label(r), _show(it)))
         prog = [("commit",) if i[0] == "commit" else ("s", i[1]) for i in full]
@@ -1521,6 +1552,10 @@ def measured_method(pb, cname, mname, m):
         if ending != "normal":
             fail(where, "variant %s does not end normally (%s)" % (label(r), ending))
         want = one[:pos[0]] + [("s", one[pos[0]][1], i) for i in range(r["k"])] + one[pos[0] + 1:]
+        if it != _norm_items(want) and r["variant"] == "R":
+            fail(where, "state outside the database: the same call repeated on the same object gives %s, the first "
+                        "call %s; instance attribute(s) changed by the first call: %s"
+                 % (_show(it), _show(_norm_items(want)), ", ".join("self." + a for a in (r.get("state_changed") or [])) or "none seen"))
         if it != _norm_items(want):
             fail(where, "statement sequence is not 'one write per element, the rest outside the loop': variant %s "
                         "gives %s, expected %s" % (label(r), _show(it), _show(_norm_items(want))))
@@ -1726,6 +1761,30 @@ def compare_models(syn, obs):
     return rep
 
 
+def layout_from_obs(obs):
+    """What the implementation-side oracles need to drive the real store when NO program could be extracted:
+    tables (for the dumps), facade delegations and the parameter order of the public methods -- all measured.
+    meta["layout_only"] = True: there are no model arguments / programs in it."""
+    tables = measured_tables(obs)
+    names = [t for t in KNOWN_TABLES if t in tables] + sorted(t for t in tables if t not in KNOWN_TABLES)
+    try:
+        facade = measured_facade(obs)
+    except Unrecognised:
+        facade = {"methods": {}, "attrs": obs["facade"]["attrs"]}
+    methods = [{"id": -1, "class": c, "name": n, "params": m["params"], "args": [], "loop": None, "loop_affinity": None,
+                "public": True, "static": m["static"], "writes": None, "prog": []}
+               for c in sorted(obs["classes"]) for n, m in sorted(obs["classes"][c]["methods"].items())
+               if m["public"] and m["params"] is not None]
+    return {"tables": _meta_tables(tables, names), "methods": methods, "init": {"class": None, "args": [], "prog": []},
+            "facade": facade, "notes": [], "skipped": [], "layout_only": True}
+
+
+def _meta_tables(tables, names):
+    return [{"id": i, "name": n, "key": tables[n]["key"],
+             "nonkey": [c["name"] for c in tables[n]["cols"] if not c["rowid"] and c["name"] not in tables[n]["key"]],
+             "affinity": {c["name"]: c["affinity"] for c in tables[n]["cols"]}} for i, n in enumerate(names)]
+
+
 def build_conn_only(obs):
     c = obs["conn"]
     if not c["text_factory_bytes"]:
@@ -1800,6 +1859,12 @@ def extract(repo=None, scratch=None):
             ex["path"] = "none (%s)" % err[:600]
             u = Unrecognised(err)
             u.extraction = ex
+            u.layout = None
+            if obs is not None:
+                try:
+                    u.layout = layout_from_obs(obs)
+                except Exception:
+                    pass
             raise u
     meta["extraction"] = ex
     return text, meta
